@@ -1,6 +1,7 @@
 import CobaldVerif.Drive.C06
 import CobaldVerif.Drive.C07
 import CobaldVerif.Drive.C08
+import CobaldVerif.Drive.C14
 import CobaldVerif.Drive.C17
 import CobaldVerif.Drive.C19
 
@@ -12,6 +13,7 @@ def dispatch (prop : String) (j : Json) : Except String Json :=
   | "C06" => C06.handle j
   | "C07" => C07.handle j
   | "C08" => C08.handle j
+  | "C14" => C14.handle j
   | "C17" => C17.handle j
   | "C19" => C19.handle j
   | p => throw s!"unknown property {p}"
